@@ -144,6 +144,12 @@ int main(int argc, char** argv) {
   panel<int64_t, std::ratio<1, 3>>(r, reps);
   panel<int64_t, std::femto>(r, reps);
   panel<int32_t, std::milli>(r, reps);
+  // tick periods whose denominator does not divide 10^15: the femtosecond value of a remainder is not a whole
+  // multiple of anything convenient (binary fractions, frame rates, the 90 kHz media clock, sevenths)
+  panel<int64_t, std::ratio<1, 65536>>(r, reps);
+  panel<int64_t, std::ratio<1, 60>>(r, reps);
+  panel<int64_t, std::ratio<1, 90000>>(r, reps);
+  panel<int64_t, std::ratio<1, 7>>(r, reps);
   fprintf(stderr, "drv_split: %llu events\n", (unsigned long long)sh.count);
   sh.close();
   return 0;
